@@ -470,6 +470,14 @@ def handle (op : String) (args : List String) : Option String :=
         | none => []
       some (showGraph (pairs.foldl (fun g xq => g.map (remNodeIn xq.1 xq.2)) ((deepGraph ti p).map (remNodeOut x a))))
     | _ => none
+  | "gfuel", [prog, types] => do
+    -- the hypotheses of graph_fuel_adequate / deepGraphD_embeds_deepGraph on a concrete program
+    let p0 ← pProgram (prog.splitOn " ") []
+    let p := decodeProgram p0
+    let ti ← pTypes types
+    let n := graphFuel p
+    let o := deepGraphO n n ti p
+    some s!"fuel_ok={o.isSome} agrees={decide (o = some (deepGraph ti p)) || o.isNone} nodis={noDisabledMods p}"
   | "graphd", [prog, types] => do
     let p0 ← pProgram (prog.splitOn " ") []
     let p := decodeProgram p0
